@@ -27,6 +27,7 @@ var c13Names = []string{"a", "ab", "b", "c", "a.txt", "n.txt", "x.dat"}
 type c13Env struct {
 	pat    int
 	re     *regexp.Regexp
+	more   []*regexp.Regexp // further filters of a stack of RegexpFs: a name shows only if all match
 	prefix string // where the filter's root lives in the MemMapFs ("" or the BasePathFs root)
 }
 
@@ -39,6 +40,15 @@ func c13EnvOf(stack string) c13Env {
 	}
 	e.pat = atoi(stack[i+3 : j])
 	e.re = regexp.MustCompile(RegexpPatterns[e.pat])
+	for rest := stack[j:]; strings.Contains(rest, "re:"); {
+		k := strings.Index(rest, "re:") + 3
+		l := k
+		for l < len(rest) && rest[l] >= '0' && rest[l] <= '9' {
+			l++
+		}
+		e.more = append(e.more, regexp.MustCompile(RegexpPatterns[atoi(rest[k:l])]))
+		rest = rest[l:]
+	}
 	if k := strings.Index(stack, "bp:"); k >= 0 {
 		l := strings.IndexByte(stack[k:], '(')
 		e.prefix = path.Clean("/" + string(unhx(stack[k+3:k+l])))
@@ -49,7 +59,14 @@ func c13EnvOf(stack string) c13Env {
 	return e
 }
 
-func (e c13Env) matches(p string) bool { return e.re.MatchString(path.Base(p)) }
+func (e c13Env) matches(p string) bool {
+	for _, r := range e.more {
+		if !r.MatchString(path.Base(p)) {
+			return false
+		}
+	}
+	return e.re.MatchString(path.Base(p))
+}
 
 // path of the MemMapFs entry behind a name used through the filter
 func (e c13Env) memPath(p string) string { return path.Clean(e.prefix + path.Clean("/"+p)) }
@@ -697,8 +714,31 @@ func runC13(c *Ctx) {
 	c13Case(c, "d2", "re:0(mem)", append(append([]string{}, below...), ". - Mkdir 2f782e6461742f63 493", "snap 0"))
 	c13Case(c, "d3", "re:0(mem)", append(append([]string{}, below...), ". - MkdirAll 2f782e6461742f632f63 493", "snap 0"))
 	c13Case(c, "d4", "re:0(mem)", append(append([]string{}, below...), ". 1 Create 2f612e747874", ". - HClose 1", ". - Rename 2f612e747874 2f782e6461742f612e747874", "snap 0"))
+	// directed: a filter stacked on a filter, directory handles from OpenFile as well as Open
+	for si, st := range []string{"re:0(re:2(mem))", "re:2(re:0(mem))"} {
+		c13Case(c, fmt.Sprintf("d5_%d", si), st, []string{"00 0 Create 2f612e747874", "00 - HClose 0", "00 1 Create 2f6e2e747874", "00 - HClose 1", "00 2 Create 2f6162", "00 - HClose 2",
+			"00 - Mkdir 2f61737562 493", "00 - Chtimes 2f612e747874 1000000000", "00 - Chtimes 2f6e2e747874 1000000000", "00 - Chtimes 2f6162 1000000000", "00 - Chtimes 2f61737562 1000000000", "00 - Chtimes 2f 1000000000",
+			". 3 OpenFile 2f 0 0", ". - HReaddirnames 3 -1", ". 4 Open 2f", ". - HReaddir 4 -1", ". 5 OpenFile 2f 0 0", ". - HReaddir 5 1", ". - HReaddir 5 1", ". - HReaddir 5 1",
+			". - Stat 2f6e2e747874", ". - Stat 2f6162", ". - Stat 2f612e747874", "snap 00"})
+	}
+	// directed: a long run of hidden entries before the visible ones, listed one entry per call
+	{
+		items := []string{}
+		for q := 0; q < 200; q++ {
+			nm := hx([]byte(fmt.Sprintf("/n%03d.dat", q)))
+			items = append(items, fmt.Sprintf("0 %d Create %s", q, nm), fmt.Sprintf("0 - HClose %d", q), fmt.Sprintf("0 - Chtimes %s 1000000000", nm))
+		}
+		items = append(items, "0 300 Create 2f7a2e747874", "0 - HClose 300", "0 - Chtimes 2f7a2e747874 1000000000", "0 - Mkdir 2f7a737562 493", "0 - Chtimes 2f7a737562 1000000000", "0 - Chtimes 2f 1000000000",
+			". 301 Open 2f", ". - HReaddir 301 1", ". - HReaddir 301 1", ". - HReaddir 301 1", ". - HReaddir 301 1",
+			". 302 Open 2f", ". - HReaddirnames 302 3", ". - HReaddirnames 302 3")
+		c13Case(c, "d6", "re:0(mem)", items)
+	}
+	runC13PartialListing(c)
 	for i := 0; i < n; i++ {
 		st := fmt.Sprintf("re:%d(mem)", i%3)
+		if i%12 == 8 {
+			st = Pick(c.Rng, []string{"re:0(re:2(mem))", "re:2(re:0(mem))", "re:1(re:2(mem))"})
+		}
 		switch i % 12 {
 		case 9:
 			st = "ro(re:0(mem))"
@@ -714,4 +754,92 @@ func runC13(c *Ctx) {
 		}
 	}
 	c.Extra["rematch_names"] = len(c13Rematch)
+}
+
+// a source whose directory handles return entries TOGETHER WITH an error (os.File.Readdir
+// documents that; gcsfs does it): whatever the filter does with the error, no name that does not
+// match may appear among the entries it returns (oracle only)
+type partialListFs struct{ afero.Fs }
+type partialListFile struct{ afero.File }
+
+func (p partialListFs) Open(name string) (afero.File, error) {
+	f, err := p.Fs.Open(name)
+	if err != nil {
+		return nil, err
+	}
+	return partialListFile{f}, nil
+}
+func (p partialListFs) OpenFile(name string, flag int, perm os.FileMode) (afero.File, error) {
+	f, err := p.Fs.OpenFile(name, flag, perm)
+	if err != nil {
+		return nil, err
+	}
+	return partialListFile{f}, nil
+}
+func (f partialListFile) Readdir(n int) ([]os.FileInfo, error) {
+	l, err := f.File.Readdir(n)
+	if err == nil {
+		err = fmt.Errorf("injected: listing interrupted")
+	}
+	return l, err
+}
+func (f partialListFile) Readdirnames(n int) ([]string, error) {
+	l, err := f.File.Readdirnames(n)
+	if err == nil {
+		err = fmt.Errorf("injected: listing interrupted")
+	}
+	return l, err
+}
+
+func runC13PartialListing(c *Ctx) {
+	mem := afero.NewMemMapFs()
+	for _, n := range []string{"/a.txt", "/b.html", "/c.txt", "/secret.bin", "/sub/x.txt", "/sub/y.dat"} {
+		afero.WriteFile(mem, n, []byte("x"), 0o644)
+	}
+	k := 0
+	for pat := range RegexpPatterns {
+		re := regexp.MustCompile(RegexpPatterns[pat])
+		fs := afero.NewRegexpFs(partialListFs{mem}, re)
+		for _, dir := range []string{"/", "/sub"} {
+			for _, count := range []int{-1, 0, 1, 2, 100} {
+				for how := 0; how < 2; how++ {
+					k++
+					var names []string
+					func() {
+						defer func() { recover() }()
+						h, err := fs.Open(dir)
+						if how == 1 {
+							h, err = fs.OpenFile(dir, os.O_RDONLY, 0)
+						}
+						if err != nil {
+							return
+						}
+						defer h.Close()
+						if k%2 == 0 {
+							fis, _ := h.Readdir(count)
+							for _, fi := range fis {
+								if !fi.IsDir() {
+									names = append(names, fi.Name())
+								}
+							}
+						} else {
+							ns, _ := h.Readdirnames(count)
+							for _, n := range ns {
+								if fi, err := mem.Stat(path.Join(dir, n)); err == nil && !fi.IsDir() {
+									names = append(names, n)
+								}
+							}
+						}
+					}()
+					c.Count("partial-listing")
+					for _, n := range names {
+						if !re.MatchString(n) {
+							c.Oracle("FAIL pl%d hidden-reported:partial-listing pattern %q dir %s count %d: the listing returned together with the source's error names %q, which does not match", k, RegexpPatterns[pat], dir, count, n)
+						}
+					}
+				}
+			}
+		}
+	}
+	c.Extra["partial_listing"] = fmt.Sprintf("%d listings through RegexpFs over a source that returns entries together with an error (oracle only)", k)
 }
